@@ -6,3 +6,4 @@ import X86Model.Spec.Canon
 import X86Model.Properties.C05
 import X86Model.Properties.C18
 import X86Model.Properties.C17
+import X86Model.Properties.C16
